@@ -16,7 +16,7 @@ DRIVER = 'Serialize'
 REQUIRED_THEOREMS = [
     'plain', 'idempotent', 'rejects', 'accepts', 'keeps_structure', 'roundtrip_partial',
     'plain_unchanged', 'plain_roundtrip_exact', 'hook_coherent', 'regex_source_is_modelled',
-    'dispatch_unique', 'tag_match_iff', 'bare_unit_nan_prefix_fails', 'token_pint_ok',
+    'dispatch_unique', 'tag_match_iff', 'bare_unit_nan_prefix_fails', 'token_pint_ok', 'badkeys_sound',
 ]
 ANCHORS = [
     ('vivarium/core/serialize.py', [
@@ -817,7 +817,17 @@ def _not_plain(x, path='$'):
 
 
 def _has_nan_unit(spec):
-    return any(_kind(s) == 'u' and s['u'].startswith('nan') for s in walk(spec))
+    """inputs of the candidate findings (notes/C14.md): a bare unit named nan…, or a nan magnitude
+    with a `1 / x` unit (printed `nan / x`)"""
+    for s in walk(spec):
+        k = _kind(s)
+        if k == 'u' and s['u'].startswith('nan'):
+            return True
+        if k == 'q' and s['q'][1].startswith('1 /') and _mag_token(_np(), s['q'][0]) == 'nan':
+            return True
+        if k == 'qa' and s['qa'][2].startswith('1 /') and 'nan' in s['qa'][1]:
+            return True
+    return False
 
 
 def _is_plain_spec(spec):
@@ -1745,6 +1755,8 @@ def corpus():
     # candidate finding: a bare Unit whose name starts with "nan" (recorded, see notes)
     cases.append({'kind': 'tree', 'stream': 'valid', 'name': 'candidate-nan-prefixed-unit',
                   'v': _t({'u': _sp({'u': 'nanometer'})})})
+    cases.append({'kind': 'tree', 'stream': 'valid', 'name': 'candidate-nan-reciprocal-unit',
+                  'v': _t({'rate': _sp({'q': [_t(math.nan), '1 / second']})})})
     # through the emitter
     cases.append({'kind': 'emit', 'stream': 'valid', 'time': 1.0, 'embed': ['agents', '1'], 'v': _t({
         'mass': q(1.5, 'femtogram'), 'counts': nd('int64', [2], ['3', '4']), 'tags': ('a', 'b'),
